@@ -411,10 +411,14 @@ static std::vector<AnswerSpec> answerUniverse(uint8_t own) {
   };
 }
 // foreign master script talking to an address ebusd may answer: variant 0 plain, 1 bad CRC first then repeat,
-// 2 bad twice, 3 NAKs the response once, 4 NAKs it twice
+// 2 bad twice, 3 NAKs the response once, 4 NAKs it twice, 5 an ESC symbol follows the CRC without waiting for the acknowledge
 static Script askScript(const Bytes& master, int respSymbols, int variant) {
   Script s;
   bool slaveDst = !ref::isMaster(master[1]);
+  if (variant == 5) {  // the requestor does not wait for the acknowledge: an ESC symbol follows the CRC at once
+    s.push_back(send(cat(ref::wirePart(master), Bytes{ref::ESC})));
+    return s;
+  }
   if (variant == 1 || variant == 2) {
     s.push_back(send(ref::wirePart(master, 0x01)));
     s.push_back(await(1));  // NAK by ebusd
@@ -475,9 +479,10 @@ static std::vector<Scenario> scenariosC15(bool thorough, const vp::Args& A) {
         bool related = false;
         for (int ai : sets[si]) if (U[ai].dst == tels[ti].m[1]) related = true;
         if (!related && (ti % 7) != 0) continue;
-        int nvar = related ? 5 : 1;
+        int nvar = related ? 6 : 1;
         for (int var = 0; var < nvar; var++) {
           if (enh && !thorough && (var == 2 || var == 4)) continue;
+          if (var == 5 && sets[si].size() != 1) continue;
           Scenario s;
           s.enhanced = enh; s.own = own; s.answer = true;
           for (int ai : sets[si]) s.answers.push_back(U[ai]);
@@ -490,6 +495,7 @@ static std::vector<Scenario> scenariosC15(bool thorough, const vp::Args& A) {
           s.k = (thorough && related && var == 0) ? 2 : 1;
           s.c = thorough ? 1 : 0;
           if (!thorough && related && var == 0 && sets[si].size() == 1) { s.k = (ti % 3) == 0 ? 2 : 1; s.c = 1; }
+          if (var == 5) { s.k = thorough ? 1 : 0; s.c = 1; }  // every chunking of 'CRC, ESC' (the ESC in the chunk of the CRC)
           s.name = std::string(enh ? "enh" : "plain") + "/set" + std::to_string(si) + "/tel" + ref::hex(tels[ti].m) + "/var" + std::to_string(var) + "/k" + std::to_string(s.k);
           v.push_back(s);
         }
